@@ -161,8 +161,22 @@ func checkC16(c *Ctx) {
 		var ser []byte
 		msg, pan := safely(func() {
 			cont := util.NewTLV8Container()
+			// in every other case the caller hands its values over in ONE scratch buffer that it overwrites after each call
+			// (the container must hold its own copy of what was set)
+			var scratch []byte
 			for _, o := range cs.ops {
-				cont.SetBytes(o.Tag, o.Val)
+				if i%2 == 1 {
+					if len(scratch) < len(o.Val) {
+						scratch = make([]byte, len(o.Val)+64)
+					}
+					n := copy(scratch, o.Val)
+					cont.SetBytes(o.Tag, scratch[:n])
+					for j := range scratch {
+						scratch[j] ^= 0xA5
+					}
+				} else {
+					cont.SetBytes(o.Tag, o.Val)
+				}
 			}
 			ser = cont.BytesBuffer().Bytes()
 			// a container may be serialised more than once, and its buffers may be consumed by reading (io.Copy to a
@@ -305,6 +319,28 @@ func checkC16(c *Ctx) {
 				items, _ := refTlvParse(out)
 				consumed = len(items)
 				impl = "ok " + showTlvItems(items)
+				// every getter on every tag that occurs (and one that does not): a value, never a panic; the byte getter
+				// returns the first byte of the tag's value (0 if there is none)
+				tags := map[byte]bool{0xEE: true}
+				for _, it := range items {
+					tags[it.Tag] = true
+				}
+				for tg := range tags {
+					var all []byte
+					for _, it := range items {
+						if it.Tag == tg {
+							all = append(all, it.Val...)
+						}
+					}
+					gb, gs, gby := cont.GetBytes(tg), cont.GetString(tg), cont.GetByte(tg)
+					var want byte
+					if len(all) > 0 {
+						want = all[0]
+					}
+					if !bytes.Equal(gb, all) || gs != string(all) || gby != want {
+						c.Violate("tlv8 getters disagree with the items of the parsed input", p.id, lines[i], fmt.Sprintf("tag %02x = %s", tg, hx(all)), fmt.Sprintf("GetBytes %s GetString %q GetByte %02x", hx(gb), gs, gby))
+					}
+				}
 				// direct oracle: nothing that was not in the input
 				if !bytes.Equal(out, p.b) {
 					c.Violate("tlv8 parser yields data that was not in the input", p.id, lines[i], hx(p.b), hx(out))
